@@ -278,7 +278,7 @@ fn tt_seq(args: &[String]) -> i32 {
 // ------------------------------------------------------------------------------------------------ C11
 fn hash_components(args: &[String]) -> i32 {
     let seed = seed_arg(args);
-    let mut rep = Report::new("hash-components", &format!("3 key draws x (16x16 castling-right subsets, ep squares, side to move, single-square changes, counters, transpositions) on corpus positions (seed {})", seed));
+    let mut rep = Report::new("hash-components", &format!("3 key draws x (16x16 castling-right subsets, ep squares, side to move, single-square changes, counters, transpositions; hash contributions of all 613 single features (592 man-on-square, 16 en-passant targets, 4 rights, side to move) pairwise distinct and non-zero) on corpus positions (seed {})", seed));
     for _draw in 0..3 {
         let z = ZobristTable::new();
         // all subsets of castling rights on a position where all four are consistent
@@ -337,6 +337,51 @@ fn hash_components(args: &[String]) -> i32 {
         if z.hash(&Board::new(fa)) == z.hash(&Board::new(fb)) {
             rep.violation = Some(format!("{{\"input\": {{\"fen_a\": {}, \"fen_b\": {}}}, \"real\": \"equal hashes\", \"expected\": \"ep square differs: different hash\"}}", jstr(fa), jstr(fb)));
             return rep.finish();
+        }
+        // cross-kind pairs: the hash contribution of every single feature (a man of either colour on a square, an en-passant
+        // target on a square, a castling right, the side to move) must be non-zero and pairwise different - two features with
+        // the same contribution give two DIFFERENT positions with the SAME hash (base + A vs base + B), for this key draw
+        {
+            let bare = |stm: Col| -> RPos { let mut p = RPos { sq: [None; 64], stm, wk: false, wq: false, bk: false, bq: false, ep: None }; p.sq[4] = Some((Col::W, Pc::K)); p.sq[60] = Some((Col::B, Pc::K)); p };
+            let h = |p: &RPos| z.hash(&eng_board(p));
+            let mut feats: Vec<(String, u64)> = Vec::new();
+            let base_w = bare(Col::W);
+            let hb = h(&base_w);
+            for c in [Col::W, Col::B] { for pc in [Pc::P, Pc::N, Pc::B, Pc::R, Pc::Q] { for s in 0..64usize {
+                if s == 4 || s == 60 { continue; }
+                if pc == Pc::P && (s < 8 || s >= 56) { continue; }
+                let mut p = base_w.clone(); p.sq[s] = Some((c, pc));
+                feats.push((format!("{:?} {:?} on square {}", c, pc, s), h(&p) ^ hb));
+            } } }
+            feats.push(("side to move".into(), h(&bare(Col::B)) ^ hb));
+            // castling rights on a board where all four are consistent
+            let rb = parse_fen("r3k2r/8/8/8/8/8/8/R3K2R w - - 0 1").unwrap();
+            let hr = h(&rb);
+            for (i, nm) in ["K", "Q", "k", "q"].iter().enumerate() {
+                let mut p = rb.clone(); match i { 0 => p.wk = true, 1 => p.wq = true, 2 => p.bk = true, _ => p.bq = true }
+                feats.push((format!("castling right {}", nm), h(&p) ^ hr));
+            }
+            // en-passant targets: black to move after a white double push to rank 4 (target on rank 3), and the mirror
+            for f in 0..8usize {
+                let mut p = bare(Col::B); p.sq[24 + f] = Some((Col::W, Pc::P));
+                let h0 = h(&p); p.ep = Some((16 + f) as u8);
+                feats.push((format!("en-passant target on square {}", 16 + f), h(&p) ^ h0));
+                let mut q = bare(Col::W); q.sq[32 + f] = Some((Col::B, Pc::P));
+                let h1 = h(&q); q.ep = Some((40 + f) as u8);
+                feats.push((format!("en-passant target on square {}", 40 + f), h(&q) ^ h1));
+            }
+            let mut seen: HashMap<u64, usize> = HashMap::new();
+            for (i, (nm, d)) in feats.iter().enumerate() {
+                rep.evals += 1;
+                if *d == 0 {
+                    rep.violation = Some(format!("{{\"input\": {{\"feature\": {}}}, \"real\": \"adding it leaves the hash unchanged\", \"expected\": \"a different position hashes differently\"}}", jstr(nm)));
+                    return rep.finish();
+                }
+                if let Some(j) = seen.insert(*d, i) {
+                    rep.violation = Some(format!("{{\"input\": {{\"feature_a\": {}, \"feature_b\": {}}}, \"real\": \"both change the hash by the same amount: base+a and base+b are different positions with equal hash, for every such base\", \"expected\": \"different positions hash differently\"}}", jstr(&feats[j].0), jstr(nm)));
+                    return rep.finish();
+                }
+            }
         }
         // transposition: two move orders into the same position
         let mg = MoveGenerator::new();
